@@ -164,6 +164,48 @@ def run(tier, replay):
                              % (rr_["rc"], rr_["out"][-1800:]), {"mode": "mdl", "shard": i})
             else:
                 done += rr_.get("cases_done", 0)
+    # ---- 5. the gA sampler and decoder (modes 21-24): the datasets C14 derives from GaCodec.tla / GaSampler.tla (every cell of
+    #      every small table, deviates on / one ulp around / between all table values, the deviate 0), through the real
+    #      decoder, both shooting methods and one re-used dbd_gA object, in the ASan build
+    import c14
+    gmodels = c14.run_models(ck, False)
+    if gmodels is not None:
+        gcases, gpicks = gmodels
+        groot = os.path.join(wd, "garoot")
+        os.makedirs(groot, exist_ok=True)
+        gdss, _gm = c14.build_datasets(ck, gcases, gpicks, thorough, rng)
+        ggood, _lists = c14.encode_and_match(ck, gdss, gcases, groot, wd)
+        if not thorough:
+            ggood = ggood[::3]
+        gpp = os.path.join(wd, "gpicks.txt")
+        with open(gpp, "w") as f:
+            for (tab_, r_), idx_ in gpicks.items():
+                f.write("%d %s %d %d\n" % (len(tab_), " ".join(str(c_) for c_ in tab_), r_, idx_))
+        gexe = vlib.compile_harness("ga_replay", ["harness/ga_replay.cc"], "asan")
+        genv = dict(vlib.harness_env("asan"))
+        genv["BXDECAY0_DBD_GA_DATA_DIR"] = groot
+        ng = 8
+        gdone = 0
+        with cf.ThreadPoolExecutor(max_workers=ng) as ex:
+            gf = []
+            for i in range(ng):
+                sh_ = ggood[i::ng]
+                if not sh_:
+                    continue
+                jp = os.path.join(wd, "gajob%d.txt" % i)
+                c14.write_job(jp, sh_, gpp)
+                gf.append((i, len(sh_), ex.submit(c14.run_harness, gexe, ["--job", jp, "--root", groot], genv, 2400 if thorough else 600)))
+            for i, nds, fu in gf:
+                rr_ = fu.result()
+                if rr_.get("crash"):
+                    if rr_["rc"] == 124:
+                        raise vlib.InfraError("ga_replay(asan) shard %d timed out" % i)
+                    ck.violation("ga:" + report_key(rr_["out"]), "sanitizer report / crash in the gA decoder / sampler (rc=%s): %s" % (
+                        rr_["rc"], rr_["out"][-1800:]), {"mode": "ga", "shard": i})
+                else:
+                    gdone += nds
+        ck.set("ga_datasets_under_sanitizers", gdone)
+        ck.add("evaluations", gdone)
     ck.set("mdl_cases_in_model", len(chosen))
     ck.set("mdl_cases_under_sanitizers", done)
     ck.add("evaluations", done)
@@ -177,6 +219,6 @@ def run(tier, replay):
     ck.sample({"generation_job": jobs[0][:140]})
     ck.sample("Create(g1,Co60) ; Shoot(g1,e1,s1) ; EventPrefill(e1) ; Shoot(g1,e1,s2)")
     ck.assumptions += ["ASan+UBSan (clang 14) and pattern-initialised automatic variables are the oracle; reads of uninitialised heap are not detected (no MSan)",
-                       "the reader, gA, driver and Geant4-action replays run under the same sanitizers inside C11, C14, C15 and C17",
+                       "the reader, loader, driver and Geant4-action replays run under the same sanitizers inside C11, C15, C13 and C17",
                        "ASan build with -D_GLIBCXX_SANITIZE_VECTOR (library and harnesses): accesses beyond a vector's size() are reported"]
     return ck.finish()
